@@ -189,7 +189,7 @@ theorem lexerNext_inRange_any (env : ApiEnv) (hA : WF env.gA) (hB : WF env.gB)
     (lexerNext env st).1.inRange env.src.length := by
   have hG : WF (env.graph st.ty) := by unfold ApiEnv.graph; split <;> assumption
   have hC : BumpOK (env.cb st.ty) := by unfold ApiEnv.cb; split <;> assumption
-  have := nextLoop_ok_any hG (env.cb st.ty) hC env.utf8 env.isPrefix env.src hb (env.src.length + 2)
+  have := nextLoop_ok_any hG (env.cb st.ty) hC env.utf8 st.pfx env.src hb (env.src.length + 2)
     st.stop h.2 (by omega)
   unfold lexerNext
   rcases this with ⟨q, h1, h2, h3⟩ | ⟨it, h1, h2, h3, h4⟩
@@ -208,7 +208,7 @@ theorem apiStep_inRange_any (env : ApiEnv) (hA : WF env.gA) (hB : WF env.gB)
       cases pool with
       | nil => simp at hne
       | cons a l => simp
-    have hpick : ∀ i, (pool.getD (i % pool.length) ⟨0, 0, 0, 0⟩).inRange env.src.length := by
+    have hpick : ∀ i, (pool.getD (i % pool.length) ⟨0, 0, 0, 0, false⟩).inRange env.src.length := by
       intro i
       have hj : i % pool.length < pool.length := Nat.mod_lt _ hlen
       rw [getD_lt _ _ _ hj]
@@ -229,6 +229,17 @@ theorem apiStep_inRange_any (env : ApiEnv) (hA : WF env.gA) (hB : WF env.gB)
       · exact h _ h1
       · rw [h1]; exact hpick i
     | morph i => exact hset _ _ (hpick i)
+    | fresh p =>
+      intro st hst
+      simp only [List.mem_append, List.mem_singleton] at hst
+      rcases hst with h1 | h1
+      · exact h _ h1
+      · rw [h1]; simp [LexSt.inRange]
+    | cloneFrom i j =>
+      simp only
+      split
+      · exact hset _ _ (hpick j)
+      · exact h
 
 /-- **C14 for partial lexers and bumping callbacks.** `api_in_range` without the restriction to ordinary
 lexers and to callbacks that do not bump. -/
